@@ -162,5 +162,13 @@ int main(int argc, char** argv) {
     alarm(3);
     int rc = sb_buffer_append_byte(&b, 7); printf("append to an empty view: rc=%d\n", rc);
   }
+
+  if (which == 20) { /* D18: a duration of >= 2^63 ms makes the clock conversion cast a negative double to unsigned long (UBSan float-cast-overflow) */
+    uint8_t f[] = {0x02, 0xff,0xff,0xff,0xff,0xff,0xff,0xff,0xff,0x7f, 0x04,1,1,1,1, 0};
+    uint8_t* p = heapcopy(f,sizeof f);
+    sb_light_program_t lp; sb_light_program_init_from_buffer(&lp,p,sizeof f);
+    sb_light_player_t pl; sb_light_player_init(&pl,&lp);
+    sb_rgb_color_t c = sb_light_player_get_color_at(&pl, 1000); printf("%d %d %d\n", c.red, c.green, c.blue);
+  }
   return 0;
 }
